@@ -506,6 +506,18 @@ func (pr *printer) inl(e Expr) (string, int) {
 				r = bare
 			}
 		}
+		// `not` takes a TERM in both transpilers (fc parseTerm, tinyfo "'not' TERM"), so a negation
+		// needs no parentheses as an operand either; half of them are written bare (chosen by the text)
+		if _, ok := x.L.(*Not); ok {
+			if bare, _ := pr.inl(x.L); len(bare)%2 == 1 {
+				l = bare
+			}
+		}
+		if _, ok := x.R.(*Not); ok {
+			if bare, _ := pr.inl(x.R); len(bare)%2 == 0 {
+				r = bare
+			}
+		}
 		return l + " " + x.Op + " " + r, 2
 	case *Not:
 		return "not " + pr.inline(x.E, 3), 2
